@@ -464,6 +464,18 @@ impl Design {
         let mut s = BTreeSet::new();
         match &it.kind {
             IK::Assign { lhs, rhs } => {
+                if let Lhs::Cat(a, b) = lhs {
+                    // two independent destinations fed by one right-hand side:
+                    // data moves from the rhs to each of them, not between them
+                    let mut sets = vec![];
+                    for t in [a, b] {
+                        let mut st = BTreeSet::new();
+                        st.insert(self.sigs[*t].dom);
+                        self.ex_doms(rhs, &mut st);
+                        sets.push(st);
+                    }
+                    return sets;
+                }
                 self.lhs_doms(lhs, &mut s);
                 self.ex_doms(rhs, &mut s);
             }
@@ -544,6 +556,20 @@ impl Design {
                     return true;
                 }
             }
+        }
+        false
+    }
+
+    /// an always_ff with reset whose only foreign-domain signal is the
+    /// `else if` condition after `if_reset`
+    pub fn ff_reset_elsif_cond_only(&self, it: &Item) -> bool {
+        if let IK::Ff { clk, rst: Some(r), lhs, cond: Some(_), rhs } = &it.kind {
+            let mut s = BTreeSet::new();
+            s.insert(*clk);
+            s.insert(*r);
+            self.lhs_doms(lhs, &mut s);
+            self.ex_doms(rhs, &mut s);
+            return s.len() == 1 && self.item_crossing(it);
         }
         false
     }
